@@ -8,3 +8,6 @@ mkdir -p target evidence violations
 (cd mc && CARGO_TARGET_DIR=../target/mc cargo build --release --offline)
 (cd stackchild && CARGO_TARGET_DIR=../target/stackchild cargo build --release --offline && CARGO_TARGET_DIR=../target/stackchild cargo build --offline)
 echo "setup done"
+# C18: pre-build the Send+Sync probe and the loom harness (also warms the dependency builds)
+./scripts/check_c18.sh quick >/dev/null 2>&1 || true
+echo "setup: C18 builds warmed"
